@@ -93,6 +93,31 @@ def with_units(k, how):
     return UnitFraction(k)
 
 
+def describe_multiplier(m):
+    """{'attr': missing | method | value, 'ret': what the method returns / the attribute's value, 'pyint': isinstance(m, int), 'val': numeric value}"""
+    from decimal import Decimal
+    import sympy
+    try:
+        a = m.is_integer
+    except AttributeError:
+        attr, ret = 'missing', None
+    else:
+        if callable(a):
+            attr, ret = 'method', bool(a())
+        else:
+            attr, ret = 'value', (None if a is None else bool(a))
+    try:
+        if isinstance(m, sympy.Basic):
+            val = Fraction(int(m.p), int(m.q)) if m.is_Rational else (Fraction(float(m)) if m.is_Float else Fraction(0))
+        elif isinstance(m, (bool, int, float, Fraction, Decimal)) or type(m).__module__ == 'numpy':
+            val = Fraction(m.item() if type(m).__module__ == 'numpy' else m)
+        else:
+            val = Fraction(0)
+    except (TypeError, ValueError):
+        val = Fraction(0)
+    return {'attr': attr, 'ret': ret, 'pyint': isinstance(m, int), 'val': rat_json(val)}
+
+
 def mult_kind(node):
     return node.get('nk') or ('sint' if node.get('sint') else 'int')
 
@@ -590,12 +615,14 @@ class C11(Property):
         'numpy object array / deque / reversed; substance keys of net_stoich; reac/prod given as sets) and of the integer TYPE of multipliers '
         '(int, sympy.Integer, numpy int8/32/64, integral Fraction): the Lean model has one list type and Int; decided by correspondence and the '
         'oracle (same result / same refusal as for a list resp. a Python int)',
-        'WHICH Python objects count as non-integral multipliers (str, None, complex, Decimal, containers, non-integral float / Fraction / numpy / sympy '
-        'numbers, non-integer symbols): the model has `none` for all of them (theorem rmul_any_ok_iff: always TypeError); the classification is '
-        'tied by the refusal stream of the rmul correspondence op and the oracle only. Integral floats (2.0) are accepted and go through float arithmetic (tolerance)',
-        'constructor arguments checks / dont_check beyond the default (explicit subsets, unknown names, both given): model + correspondence + oracle, '
-        'theorem only for the default checks (constructor_ok_iff); inputs failing two checks at once depend on set order and are not generated',
-        'as_reactions refusal `units missing` (rate constant with a units attribute, units=None): model branch + correspondence + oracle, no theorem',
+        'multipliers as arbitrary Python objects: the is_integer dispatch of __rmul__ is modelled (PyMul, theorems scaling_by_object_ok_iff / _result); what remains '
+        'correspondence-only is the DESCRIPTION of a concrete object (which attribute it has, what its method returns, its value), produced by the harness and '
+        'checked by the driver against the plain integer/null description; integral floats (2.0) go through float arithmetic (tolerance)',
+        'constructor arguments checks / dont_check: theorem constructor_checks_ok_iff for non-negative coefficients; a negative coefficient with all_positive '
+        'unchecked is outside the model (theorem negative_unchecked_region delimits exactly that region) and is tied by correspondence/oracle only; '
+        'inputs failing two checks at once depend on set order and are not generated',
+        'WHICH Python values count as a rate constant with units / a units module in as_reactions (hasattr(k, "units")): two Booleans in the model '
+        '(theorem asReactions_ok_iff covers the refusal), classification tied by correspondence/oracle',
     )
     rule = ('refusal streams: every kind of non-integral multiplier, constructor checks/dont_check arguments, operands built unchecked (no net effect) inside trees/histories, rate constants with units; eliminate with rxns given as every container type (re-iterable and one-shot); multipliers as int / sympy.Integer / numpy ints / integral Fraction; HISTORIES: pools of 2-4 equilibrium objects and 2-10 statements (scale/negate/add/subtract) in which every operand and every earlier '
             'result may be used again, checked per statement and for unchanged earlier objects; random expression trees (scale by -4..5 incl. 0, negate, add, subtract; int and sympy.Integer multipliers; n*e and e*n) over random '
@@ -822,6 +849,11 @@ class C11(Property):
             except Exception:
                 ks = []
             return dict(c, keys=ks)
+        if op == 'rmul':
+            # describe the multiplier OBJECT by what __rmul__ inspects of it (model type PyMul); the driver checks that this
+            # description and the plain one ("n": integer or null) give the same outcome
+            k = mult_kind(c)
+            return dict(c, mult=describe_multiplier(bad_multiplier(k[4:]) if k.startswith('bad:') else as_multiplier(k, c['n'])))
         if op == 'as_reactions':
             return dict(c, c0=1 if c['units_c0'] is None else c['units_c0'], units_given=c['units_c0'] is not None,
                         rate_has_units=bool(c.get('rate_units')))
